@@ -13,7 +13,7 @@ use oracle::tables;
 use serde_json::json;
 
 pub const ID: &str = "C06";
-pub const FAMS: [&str; 8] = ["spare-bits", "residues", "class-edge", "every-length", "real-world-prefixes", "crafted", "power-of-two-lengths", "tight-in-smaller-version"];
+pub const FAMS: [&str; 9] = ["spare-bits", "residues", "class-edge", "every-length", "real-world-prefixes", "crafted", "power-of-two-lengths", "tight-in-smaller-version", "near-alphabet-automatic-mode"];
 
 fn spare(v: usize, level: usize, mode: usize, len: usize) -> isize {
     8 * tables::layout(v, level).data_codewords as isize - (4 + tables::cci_bits(v, mode) + tables::payload_bits(mode, len)) as isize
@@ -115,6 +115,25 @@ pub fn jobs(ctx: &Ctx) -> Vec<Job> {
                     }
                 }
             }
+        }
+    }
+    // AUTOMATIC mode on strings that sit right next to a mode's alphabet: a digit or alphanumeric background with
+    // one or two neighbours of the 45-character set planted (ASCII punctuation that is NOT in it, lower case, 0x80),
+    // and pure backgrounds; the bit stream must be the ISO encoding in the mode the ORACLE's classification gives
+    {
+        let mut rng2 = Rng::new(ctx.seed ^ 0x6a17);
+        const NEIGHBOURS: &[u8] = b"!\"#&'(),;<=>?@[\\]^_`{|}~az\x80";
+        for i in 0..ctx.tier.pick(900usize, 20_000) {
+            k += 1;
+            let bg = i % 2; // digits / alphanumerics
+            let len = 1 + rng2.below(if i % 9 == 0 { 400 } else { 40 });
+            let mut p = crate::job::gen_payload(bg, len, rng2.below(GEN_COUNT), rng2.next_u64());
+            for _ in 0..rng2.below(3) {
+                let at = rng2.below(p.len());
+                p[at] = *rng2.pick(NEIGHBOURS);
+            }
+            let class = tables::classify(&p);
+            jobs.push(Job { fam: FAMS[8], class, mode: None, level: Some(rng2.below(4)), version: None, mask: rotate_mask(k), len: p.len(), payload: Some(p), seed: mix(ctx.seed, k as u64), ..Default::default() });
         }
     }
     // dictionary of real-world prefixes / magic byte sequences, alone and with tails (automatic version;
